@@ -228,6 +228,99 @@ def kwarg_expr(call, name):
     return None
 
 
+def wiring_sym(ctx):
+    """The same wiring facts decided semantically: the real SamplerCore.__init__ (and whatever helpers it calls) is executed with a
+    symbolic configuration and the real component constructors, and the *attributes the components end up with* are compared with
+    the configuration values their contracts are stated over.  Independent of how the constructor text is organised."""
+    CORE_ = "tempest.core"
+    for (clustering, cap_given, blobs) in itertools.product((True, False), (True, False), (True, False)):
+        info = {}
+
+        def setup(I, st, clustering=clustering, cap_given=cap_given, blobs=blobs):
+            f = dict(n_particles=fresh_scalar("int", "n_particles"), n_dim=fresh_scalar("int", "n_dim"), ess_ratio=fresh_scalar("real", "ess_ratio"),
+                     volume_variation=fresh_scalar("real", "vv"), n_steps=fresh_scalar("int", "n_steps"), n_max_steps=fresh_scalar("int", "n_max_steps"),
+                     cluster_every=fresh_scalar("int", "cluster_every"), split_threshold=fresh_scalar("real", "split_threshold"),
+                     n_max_clusters=fresh_scalar("int", "n_max_clusters") if cap_given else None, normalize=fresh_scalar("bool", "normalize"),
+                     clustering=clustering, blobs_dtype="f8" if blobs else None, random_state=None, sample=Opaque("cfg.sample"),
+                     resample=Opaque("cfg.resample"), periodic=Opaque("cfg.periodic"), reflective=Opaque("cfg.reflective"),
+                     prior_transform=Opaque("cfg.prior_transform"), log_likelihood=Opaque("cfg.log_likelihood"), pool=None, vectorize=False,
+                     output_dir=Opaque("cfg.output_dir"), output_label=Opaque("cfg.output_label"), log_likelihood_args=None,
+                     log_likelihood_kwargs=None, n_effective=fresh_scalar("int", "n_eff"), n_active=fresh_scalar("int", "n_act"))
+            cfg = st.new_obj("SamplerConfig", __module__=CFG, __frozen__=True, **f)
+            core = st.new_obj("SamplerCore", __module__=CORE_)
+            info.update(f=f, core=core)
+            return dict(self_val=core, args=[cfg, Opaque("state")])
+
+        def post(I, o, pre, clustering=clustering, cap_given=cap_given, blobs=blobs):
+            st = o.state
+            f = info["f"]
+            c = st.cell(info["core"])
+            g = []
+            MISSING = object()
+
+            def attr(obj, name):
+                v = c.get(obj)
+                if not isinstance(v, Ref):
+                    return None
+                return st.cell(v).get(name, MISSING)
+
+            def same(a, b):
+                if a is MISSING:
+                    return False
+                if a is b:
+                    return True
+                if isinstance(a, Opaque) or isinstance(b, Opaque) or a is None or b is None or isinstance(a, (str, bool)) or isinstance(b, (str, bool)):
+                    if z3.is_expr(a) or z3.is_expr(b):
+                        if isinstance(a, bool) or isinstance(b, bool):
+                            return to_z3(a) == to_z3(b)
+                        return False
+                    return type(a) == type(b) and not isinstance(a, Opaque) and a == b
+                try:
+                    return to_z3(a) == to_z3(b)
+                except Exception:
+                    return False
+
+            def want(comp, name, value, why):
+                got = attr(comp, name)
+                g.append((f"{comp}.{name} is the configured value ({why})", same(got, value)))
+            want("reweighter", "n_particles", f["n_particles"], "ESS target, C05")
+            want("reweighter", "ess_ratio", f["ess_ratio"], "ESS target, C05")
+            want("reweighter", "volume_variation", f["volume_variation"], "metric mode, C05")
+            want("resampler", "n_particles", f["n_particles"], "exactly n_particles resampled, C06")
+            want("resampler", "resample", f["resample"], "validated scheme")
+            want("resampler", "have_blobs", blobs, "blobs gathered iff returned, C07")
+            want("resampler", "clustering", clustering, "clusterer None iff clustering off")
+            want("mutator", "have_blobs", blobs, "blobs stored iff returned, C07")
+            want("mutator", "n_particles", f["n_particles"], "prior batch size")
+            want("mutator", "n_dim", f["n_dim"], "unit-cube dimension")
+            want("mutator", "sampler", f["sample"], "kernel selection")
+            want("mutator", "periodic", f["periodic"], "validated index set, C16")
+            want("mutator", "reflective", f["reflective"], "validated index set, C16")
+            want("mutator", "n_steps", f["n_steps"], ">= 1 after __post_init__")
+            want("mutator", "n_max_steps", f["n_max_steps"], ">= 1 after __post_init__")
+            want("trainer", "cluster_every", f["cluster_every"], "refit cadence, C14")
+            want("trainer", "clustering", clustering, "clusterer None iff clustering off")
+            tc, rc = attr("trainer", "clusterer"), attr("resampler", "clusterer")
+            if clustering:
+                ok = isinstance(tc, Ref) and isinstance(rc, Ref) and tc.oid == rc.oid
+                g.append(("one clusterer object shared by Trainer and Resampler", ok))
+                if ok:
+                    k = st.cell(tc)
+                    g.append(("clusterer.max_iterations gives the configured cap (K <= 1 + max_iterations)",
+                              same(k.get("max_iterations", MISSING), (f["n_max_clusters"] - 1) if cap_given else 1000)))
+                    g.append(("clusterer.covariance_type is 'full'", k.get("covariance_type") == "full"))
+                    g.append(("clusterer.normalize is the configured switch", same(k.get("normalize", MISSING), f["normalize"])))
+                    g.append(("clusterer.threshold_modifier is the configured split threshold", same(k.get("threshold_modifier", MISSING), f["split_threshold"])))
+            else:
+                g.append(("no clusterer when clustering is off", tc is None and rc is None))
+            return [(nm, v if not isinstance(v, bool) else z3.BoolVal(v)) for nm, v in g]
+        ex = extras()
+        # a non-positive split threshold is refused by the clustering model's own constructor (still at sampler construction, before
+        # any likelihood call): a rejecting path, allowed here
+        ctx.verify(f"wiring:clustering={int(clustering)},cap={int(cap_given)},blobs={int(blobs)}", CORE_, "SamplerCore.__init__", setup, post,
+                   extras=ex, replayer="c18_run", allowed_raises=("ValueError",))
+
+
 def wiring(ctx):
     """SamplerCore.__init__ hands every component the configuration value its contract is stated over (syntactic facts
     about the constructor calls; definitive)."""
@@ -415,7 +508,7 @@ def bounded_runs(ctx):
 def run(ctx):
     ctx.parallel(well_typed_product(ctx) + ill_typed(ctx))
     no_likelihood_call_at_construction(ctx)
-    wiring(ctx)
+    wiring_sym(ctx)        # (the earlier textual comparison of constructor keywords, `wiring`, is superseded: it flagged equivalent refactorings)
     forwarding(ctx)
     from . import c08
     c08.picklable_core(ctx, replayer="c18_run")
